@@ -113,6 +113,14 @@ class StockGen:
             return "{% firstof " + " ".join(r.choice(NAMES + ["nope", self.quoted()]) for _ in range(r.randint(1, 3))) + " %}"
         if k < 0.86 and in_for:
             return "{% cycle " + " ".join(self.quoted() for _ in range(r.randint(1, 3))) + " %}"
+        if k < 0.885:
+            # verbatim blocks (bare or named without quotes) whose body holds tags with quoted arguments: stock keeps every
+            # character of the body as text (seeded/C10-5: quoted tags inside the block came alive)
+            nm = r.choice(["", "", " vb"])
+            inner = r.choice(["{% if a == " + self.quoted() + " %}hi{% endif %}", "{{ a|default:" + self.quoted() + " }}",
+                              "{% firstof " + self.quoted() + " %}", "{% include " + self.quoted() + " %}", "{% load " + self.quoted() + " %}t",
+                              "x{% for v in xs %}" + self.quoted() + "{% endfor %}"])
+            return "{% verbatim" + nm + " %}" + inner + "{% endverbatim" + nm + " %}"
         if k < 0.9:
             return r.choice(["{# note #}", "{% comment %}hidden {{ a }}{% endcomment %}", "{% comment " + self.quoted() + " %}x{% endcomment %}"])
         if k < 0.95 and blocks is not None and len(blocks) < 4:
